@@ -18,17 +18,19 @@ LEVEL = "exploration"
 QUICK_RUNS = 30000
 BATCH = 1000
 SWEEP_BATCH = 40
-ITEM_DELIMITERS = [",", ";", ":", "|", "\t", " ", "^", "#", "~", "\\", '"', "'", "!", "\x1f"]
+ITEM_DELIMITERS = [",", ";", ":", "|", "\t", " ", "^", "#", "~", "\\", '"', "'", "!", "\x1f",
+                   # characters that end a line whatever the line delimiter says: only the loader can keep them out
+                   "\n", "\r"]
 QUOTES = sorted("!\"#$%&'*+-/:;=?\\^_`~")
 ESCAPES = ['"', "\\"]
 QUOTINGS = ["minimal", "all"]
 LINE_DELIMITERS = ["any", "lf", "cr", "crlf"]
 CONFIGS = list(itertools.product(ITEM_DELIMITERS, QUOTES, ESCAPES, QUOTINGS, LINE_DELIMITERS))
-SWEEP_EXHAUSTIVE_NOTE = ("bounded sweep: every one of the %d combinations (14 item delimiters x 20 quote characters x 2 "
+SWEEP_EXHAUSTIVE_NOTE = ("bounded sweep: every one of the %d combinations (16 item delimiters x 20 quote characters x 2 "
                          "escape characters x 2 quoting modes x 4 line delimiters) is offered to the loader; each accepted "
                          "one round-trips K seeded tables through StringIO (K = 4 quick, 200 thorough)" % len(CONFIGS))
 RULE_TEXT = (
-    "seeded scenarios: a configuration drawn from the 4480 combinations (refused ones are counted, not judged) x table "
+    "seeded scenarios: a configuration drawn from the 5120 combinations (refused ones are counted, not judged) x table "
     "0-5 rows x 1-4 columns over the configured specials + blank/CR/LF/x/empty/non-ASCII x writer target (StringIO or "
     "chunked SimFS path) x reader source (stream or path) x chunk schedule; plus the bounded sweep in sweep_note. "
     "Non-trivial: configuration accepted and table has a cell containing a special character. Distinct: (configuration, "
